@@ -696,6 +696,18 @@ fn gen_doc_act(rng: &mut Rng) -> DAct {
 	match rng.below(12) {
 		0 => DAct::Add(s(*rng.pick(&D[..]))), 1 => DAct::Remove(s(*rng.pick(&D[..]))),
 		2 => { let a = s(*rng.pick(&D[..])); let b = if rng.chance(1, 3) { a.clone() } else { s(*rng.pick(&D[..])) }; DAct::Edit(a, b) }
+		// an edit between two comments that a normalising comparison (trim, lines(), case folding) would call equal:
+		// it IS a change (is_diff), in either direction
+		3 => {
+			let a = s(*rng.pick(&D[..]));
+			let mut b = a.clone();
+			match rng.below(7) {
+				0 => b.push('\n' as u32), 1 => b.push(' ' as u32), 2 => { b.push('\r' as u32); b.push('\n' as u32); }
+				3 => b.insert(0, ' ' as u32), 4 => b.push('\t' as u32), 5 => b.push(0x2003),
+				_ => { if let Some(c) = b.last_mut() { *c ^= 0x20; } else { b.push('\n' as u32); } }
+			}
+			if rng.chance(1, 2) { DAct::Edit(a, b) } else { DAct::Edit(b, a) }
+		}
 		_ => DAct::None,
 	}
 }
